@@ -194,6 +194,7 @@ class TdmsReader(object):
             segment_obj = segment.get_segment_object(channel_path)
             chunk_size = 0 if (segment_obj is None or not segment_obj.has_data) else segment_obj.number_values
             if chunk_size == 0:
+                segment_index += 1
                 continue
             segment_start_index = (
                 0 if segment_index == first_segment else segment_offsets[segment_index - first_segment - 1])
